@@ -114,8 +114,11 @@ func loadWorld(repo string, overlay map[string][]byte, arch string, normalise bo
 		return nil, fmt.Errorf("expected at least 9 repository packages, loaded %d", len(w.Repo))
 	}
 	if normalise {
+		cur, curOverlay := w, overlay
+		var notes []string
 		// E1b: grouped fields of component structs are analysed as top-level fields (see flatten.go)
-		if extra, notes := groupedFieldOverlays(w.Fset, w.Repo, overlay); len(extra) > 0 {
+		if extra, n1 := groupedFieldOverlays(w.Fset, w.Repo, overlay); len(extra) > 0 {
+			notes = append(notes, n1...)
 			merged := map[string][]byte{}
 			for k, v := range overlay {
 				merged[k] = v
@@ -124,15 +127,34 @@ func loadWorld(repo string, overlay map[string][]byte, arch string, normalise bo
 				merged[k] = v
 			}
 			if w2, err2 := loadWorld(repo, merged, arch, false); err2 == nil {
-				w2.Notes = notes
-				return w2, nil
+				cur, curOverlay = w2, merged
 			} else {
 				notes = append(notes, "grouped-field normalisation abandoned (the rewritten source does not compile): "+strings.Split(err2.Error(), "\n")[0])
 			}
-			w.Notes = notes
 		} else {
-			w.Notes = notes
+			notes = append(notes, n1...)
 		}
+		// E1c: function variables that are test seams are analysed as direct calls (see seams.go)
+		if extra, n2 := funcVarSeamOverlays(cur.Fset, cur.Repo, curOverlay); len(extra) > 0 {
+			merged := map[string][]byte{}
+			for k, v := range curOverlay {
+				merged[k] = v
+			}
+			for k, v := range extra {
+				merged[k] = v
+			}
+			if w3, err3 := loadWorld(repo, merged, arch, false); err3 == nil {
+				cur = w3
+				notes = append(notes, n2...)
+			} else {
+				notes = append(notes, "function-variable normalisation abandoned (the rewritten source does not compile): "+strings.Split(err3.Error(), "\n")[0])
+			}
+		}
+		if cur != w {
+			cur.Notes = notes
+			return cur, nil
+		}
+		w.Notes = notes
 	}
 	// G1/soundness caveat: no unsafe, no cgo, no build-constrained files in repo packages.
 	for _, p := range w.Repo {
